@@ -203,3 +203,99 @@ example : npIndexShape [.newaxis, .int (-1), .slice (some 1) none (some 2)] [3, 
 example : npIndexShape [.int 3] [3] = none := by decide
 
 end FV.Props.C06
+
+namespace FV.Props.C06
+open FV.C06
+
+/-! ### the slice length is a length: `0 ≤ len(range(*slice.indices(n))) ≤ n` -/
+
+/-- bounds `slice.indices` guarantees: positive step: `0 ≤ start, stop ≤ n`; negative: `-1 ≤ start, stop ≤ n-1` -/
+theorem sliceIndices_range (a b c : Option Int) (n : Nat) (start stop step : Int)
+    (h : sliceIndices a b c n = .ok (start, stop, step)) :
+    step ≠ 0 ∧ (0 < step → 0 ≤ start ∧ start ≤ n ∧ 0 ≤ stop ∧ stop ≤ n) ∧
+    (step < 0 → -1 ≤ start ∧ start ≤ (n : Int) - 1 ∧ -1 ≤ stop ∧ stop ≤ (n : Int) - 1) := by
+  by_cases hz : c.getD 1 = 0
+  · simp [sliceIndices, hz] at h
+  · simp only [sliceIndices, hz, if_false, Except.ok.injEq, Prod.mk.injEq] at h
+    obtain ⟨h1, h2, h3⟩ := h
+    refine ⟨by omega, ?_, ?_⟩
+    · intro hpos
+      have hneg : ¬ (c.getD 1 < 0) := by omega
+      simp only [hneg, if_false] at h1 h2
+      rw [← h1, ← h2]
+      unfold clipBound
+      refine ⟨?_, ?_, ?_, ?_⟩ <;> (split <;> (try split) <;> omega)
+    · intro hneg
+      have hneg' : c.getD 1 < 0 := by omega
+      simp only [hneg', if_true] at h1 h2
+      rw [← h1, ← h2]
+      unfold clipBound
+      refine ⟨?_, ?_, ?_, ?_⟩ <;> (split <;> (try split) <;> omega)
+
+theorem rangeLen_le (start stop step : Int) (n : Nat) (hstep : step ≠ 0)
+    (hp : 0 < step → 0 ≤ start ∧ stop ≤ n) (hn : step < 0 → start ≤ (n : Int) - 1 ∧ -1 ≤ stop) :
+    rangeLen start stop step ≤ n := by
+  unfold rangeLen
+  by_cases hs : 0 < step
+  · simp only [hs, if_true]
+    obtain ⟨h1, h2⟩ := hp hs
+    split
+    · have hd : (stop - start - 1) / step ≤ stop - start - 1 := Int.ediv_le_self _ (by omega)
+      have h0 : 0 ≤ (stop - start - 1) / step := Int.ediv_nonneg (by omega) (by omega)
+      omega
+    · omega
+  · simp only [hs, if_false]
+    have hneg : step < 0 := by omega
+    obtain ⟨h1, h2⟩ := hn hneg
+    split
+    · have hd : (start - stop - 1) / (-step) ≤ start - stop - 1 := Int.ediv_le_self _ (by omega)
+      have h0 : 0 ≤ (start - stop - 1) / (-step) := Int.ediv_nonneg (by omega) (by omega)
+      omega
+    · omega
+
+/-- **a slice never yields more elements than the axis has** (for every start/stop/step, either step sign,
+    `None` parts, out-of-range and negative bounds) -/
+theorem sliceLen_le_size (a b c : Option Int) (n m : Nat) (h : sliceLen a b c n = .ok m) : m ≤ n := by
+  unfold sliceLen at h
+  cases hi : sliceIndices a b c n with
+  | error e => simp [hi] at h
+  | ok t =>
+    obtain ⟨start, stop, step⟩ := t
+    simp [hi] at h
+    subst h
+    obtain ⟨hz, hp, hn⟩ := sliceIndices_range a b c n start stop step hi
+    exact rangeLen_le start stop step n hz (fun hs => ⟨(hp hs).1, (hp hs).2.2.2⟩)
+      (fun hs => ⟨(hn hs).2.1, (hn hs).2.2.1⟩)
+
+/-- `x[:]` and `x[::-1]` keep the axis (the latter is the case fix 43987c7 repaired) -/
+theorem sliceLen_full (n : Nat) : sliceLen none none none n = .ok n := by
+  simp only [sliceLen, sliceIndices, Option.getD_none, clipBound, rangeLen]
+  have h1 : ¬ ((1 : Int) = 0) := by omega
+  have h2 : ¬ ((1 : Int) < 0) := by omega
+  simp only [h1, h2, if_false]
+  by_cases hn : (0 : Int) < n
+  · simp only [hn, if_true, Int.zero_lt_one]; congr 1; simp <;> omega
+  · simp only [hn, if_false, Int.zero_lt_one, if_true]; congr 1; omega
+
+theorem sliceLen_reverse (n : Nat) : sliceLen none none (some (-1)) n = .ok n := by
+  simp only [sliceLen, sliceIndices, Option.getD_some, clipBound, rangeLen]
+  have h1 : ¬ ((-1 : Int) = 0) := by omega
+  have h2 : ((-1 : Int) < 0) := by omega
+  have h3 : ¬ ((0 : Int) < -1) := by omega
+  simp only [h1, h2, h3, if_false, if_true]
+  by_cases hn : (-1 : Int) < (n : Int) - 1
+  · simp only [hn, if_true]; congr 1; simp <;> omega
+  · simp only [hn, if_false]; congr 1; omega
+
+/-- a zero step is the only way a slice part makes `find_domain` raise -/
+theorem sliceLen_error_iff (a b c : Option Int) (n : Nat) :
+    (∃ e, sliceLen a b c n = .error e) ↔ c = some 0 := by
+  unfold sliceLen sliceIndices
+  cases c with
+  | none => simp
+  | some s =>
+    by_cases hs : s = 0
+    · subst hs; simp
+    · simp [hs]
+
+end FV.Props.C06
